@@ -11,7 +11,10 @@ mod verif_kani_lru {
         unsafe { core::mem::transmute::<(u64, u64), std::collections::hash_map::RandomState>((0u64, 0u64)) }
     }
 
-    const KEYS: [[u8; 9]; 3] = [[0u8; 9], [1, 0, 0, 0, 0, 0, 0, 0, 0], [2, 2, 2, 2, 2, 2, 2, 2, 2]];
+    // no all-zero key here: for_each_entry (the observer used below) skips entries whose key is all zero
+    // (LruFileEntry::is_active), a quirk of the on-disk 'empty slot' convention that belongs to the
+    // not-covered reload clause; the Verus unit covers touch/remove/evict/contains for every key
+    const KEYS: [[u8; 9]; 3] = [[0, 0, 0, 0, 0, 0, 0, 0, 7], [1, 0, 0, 0, 0, 0, 0, 0, 0], [2, 2, 2, 2, 2, 2, 2, 2, 2]];
 
     /// textbook LRU over key indices 0..3: `ord[..n]` from least to most recent
     struct Model {
